@@ -52,6 +52,20 @@ let rec ast_seq toks stop =          (* returns (items, terminator, remaining to
     let (items, term, rest'') = ast_seq rest stop in
     (it :: items, term, rest'')
 
+(* the grammar oracle (Spec/PatRead.v): a string the implementation ACCEPTS must be in the documented grammar
+   ([read_pat] = Some a), its AST must be well-formed ([wfb]) and compile to the atoms the implementation produced; a string
+   the implementation REJECTS must not be a documented, well-formed pattern.  Returns (ok, tag). *)
+let grammar_oracle (text : n list) (impl : atom list option) : bool * string =
+  match impl, read_pat text with
+  | Some _, None -> (false, ",gram-accepted-not-in-grammar")
+  | Some atoms, Some a ->
+    if not (wfb a) then (false, ",gram-accepted-not-wf")
+    else if compile a <> atoms then (false, ",gram-compiles-differently")
+    else (true, ",gram-ok")
+  | None, Some a -> if wfb a then (false, ",gram-documented-but-rejected") else (true, ",gram-rejected-not-wf")
+  | None, None -> (true, ",gram-rejected")
+let atoms_of_field v = if v = "-" || v = "" then [] else List.map parse_atom (split_on ',' v)
+
 let handle kind fs obs =
   let bang = String.length obs > 0 && obs.[0] = '!' in
   match kind with
@@ -68,7 +82,12 @@ let handle kind fs obs =
       | "ok" :: _ -> true
       | "err" :: rest -> let ofs = fields rest in int_of_string (field ofs "pos") <= len
       | _ -> false) in
-    (mobs, ok, len > 0, (if String.length mobs > 2 && String.sub mobs 0 2 = "ok" then "parse-ok" else "parse-err"), None)
+    let (gok, gtag) = (if bang then (true, "") else
+      match String.split_on_char ' ' obs with
+      | "ok" :: rest -> grammar_oracle text (Some (atoms_of_field (field (fields rest) "atoms")))
+      | "err" :: _ -> grammar_oracle text None
+      | _ -> (true, "")) in
+    (mobs, ok && gok, len > 0, (if String.length mobs > 2 && String.sub mobs 0 2 = "ok" then "parse-ok" else "parse-err") ^ gtag, None)
   | "syn" ->
     (* theorem 2 against the real parser: model observation = the INTENDED compiler on the AST; oracle: the canonical
        spelling the harness printed is Spec `show`, the real parser's atoms are Spec `compile`, and so are the model parser's *)
@@ -77,7 +96,14 @@ let handle kind fs obs =
     let atoms = compile a in
     let mobs = Printf.sprintf "ok atoms=%s save_len=%s" (join "," (List.map show_atom atoms)) (string_of_n (save_len atoms)) in
     let ok = (not bang) && show a = text && obs = mobs && (match parse text with Ok (Inr p) -> p = atoms | _ -> false) in
-    (mobs, ok, true, "syn", None)
+    (* the reader inverts the printer (the generator makes no empty wildcard run), and the grammar oracle on the implementation's answer *)
+    let rd = (read_pat text = Some a) in
+    let (gok, gtag) = (if bang then (true, "") else
+      match String.split_on_char ' ' obs with
+      | "ok" :: rest -> grammar_oracle text (Some (atoms_of_field (field (fields rest) "atoms")))
+      | "err" :: _ -> grammar_oracle text None
+      | _ -> (true, "")) in
+    (mobs, ok && rd && gok, true, "syn" ^ (if rd then "" else ",reader-does-not-invert-printer") ^ gtag, None)
   | "exec" ->
     let img = image_of_fields fs in
     let get = mget_of img in
@@ -119,10 +145,21 @@ let handle kind fs obs =
             closing braces to the parser's trimming (3b): exact
             verdict, the array keeps its length and every slot the log writes holds what the log applied to the initial
             array holds there. For an AST in the known class F34 the same comparison is made and reported under the class. *)
-       let (ok2, tag2, cls) = (match List.assoc_opt "ast" fs with
-         | None -> (true, "", None)
-         | Some toks ->
-           let (a, _, _) = ast_seq (split_on ',' toks) [] in
+       let from_text = (field fs "atoms" = "-") in
+       let text = (if from_text then nlist_of_hex (field fs "text") else []) in
+       let impl_atoms = (if bang then None else
+         match List.assoc_opt "atoms" (fields (String.split_on_char ' ' obs)) with Some v -> Some (atoms_of_field v) | None -> None) in
+       (* the grammar oracle on the atoms the implementation parsed the text into *)
+       let (gok, gtag) = (match from_text, impl_atoms with
+         | true, Some ia -> grammar_oracle text (Some ia)
+         | _ -> (true, "")) in
+       (* the AST of the semantic oracle: the generator's when it sent one, otherwise the one the independent reader finds *)
+       let ast_opt = (match List.assoc_opt "ast" fs with
+         | Some toks -> let (a, _, _) = ast_seq (split_on ',' toks) [] in Some a
+         | None -> if from_text then read_pat text else None) in
+       let (ok2, tag2, cls) = (match ast_opt, impl_atoms with
+         | None, _ | _, None -> (true, "", None)
+         | Some a, Some ia ->
            let flat = List.for_all (function ISub _ | IAlt _ -> false | _ -> true) a in
            let solid = (match List.rev a with
              | [] -> true
@@ -131,12 +168,13 @@ let handle kind fs obs =
              | _ -> false) in
            let ofs = fields (String.split_on_char ' ' obs) in
            let cursor = n_of_string (field fs "cursor") in
-           if bang then (true, "", None)
+           (* the atoms that were executed must be what the AST compiles to: anything else is a failure, not a skip *)
+           if compile a <> ia then (false, ",den-compile-differs", None)
            else if flat && solid then
              (match den_top (scan_of_view v) a cursor with
               | Some lg -> (field ofs "match" = "1" && field ofs "save" = join "," (List.map string_of_n (apply_log lg save0)), ",den-match", None)
               | None -> (field ofs "match" = "0", ",den-nomatch", None))
-           else if compile a = atoms && trims_only_braces a then begin
+           else if trims_only_braces a then begin
              let in_class = range_skip_in_last_alternative_with_suffix a in
              let cls = if in_class then Some "range_skip_in_last_alternative_with_suffix" else None in
              let shape = (if in_class then ",f34-class" else if noalt a then ",den-sub" else ",den-alt") in
@@ -151,10 +189,11 @@ let handle kind fs obs =
                 (field ofs "match" = "1" && slots_ok, shape ^ "-match", cls)
               | None -> (field ofs "match" = "0", shape ^ "-nomatch", cls))
            end
-           else (true, ",den-skip", None)) in
+           (* the only skip left: the parser trimmed trailing skips / range skips, the pattern says less than it is written *)
+           else (true, ",den-skip-trimmed", None)) in
        (* raw atom lists (explicit atoms= field): no semantic oracle, the comparison of verdict and save array with the model is the check *)
        let contains s sub = (let n = String.length sub in let rec go i = i + n <= String.length s && (String.sub s i n = sub || go (i + 1)) in go 0) in
        let rawtag = if field fs "atoms" = "-" then "" else if contains mobs "match=1" then ",raw-atoms,raw-match" else ",raw-atoms,raw-nomatch" in
-       (mobs, ok && ok2, true, Printf.sprintf "exec,%s,%s%s%s" expect (if fmt64 then "pe64" else "pe32") tag2 rawtag, cls))
+       (mobs, ok && ok2 && gok, true, Printf.sprintf "exec,%s,%s%s%s%s" expect (if fmt64 then "pe64" else "pe32") tag2 gtag rawtag, (if gok then cls else None)))
   | _ -> ("!unknown-kind", false, false, "unknown", None)
 let () = run_driver handle
